@@ -8,14 +8,14 @@ from ..lin import Form
 MANIFEST = {
     'technique': 'argument-purity (effect) analysis of every kernel reachable from the model objects, mutating-callee => caller-passes-a-copy rule, gather/scatter '
             'summaries of the two UNIFAC kernels, result provenance of __call__ and of the ideal decorator; definite-assignment dataflow over the CFG of every '
-            'function of the module; coefficient-pairing rule on the symbolic form of the combinatorial terms',
+            'function of the module; coefficient-pairing rule on the symbolic form of the combinatorial terms; normalisation-shape rule for the sub-composition',
     'text': 'Decides for every input: no kernel reachable from an activity-coefficient model stores through its composition parameter; the one kernel that mutates '
             'an array parameter (psi of modified UNIFAC) is only ever called with a fresh copy; both UNIFAC kernels gather the sub-composition x_sub[i] <- '
             'x[index[i]], scatter gamma[index[i]] <- gamma_sub[i] and default to ones; the model object returns f(x, T, *args) so the functional form used by the '
             'flash solvers is the one the object evaluates; the ideal models return 1; every local of every function in the module is assigned on all paths before '
             'it is read (an unassigned read in a numba kernel is a crash at the vertex of a group-less chemical); in the combinatorial terms every c*ln(R) is '
-            'paired with -c*R, a necessary condition of the Gibbs-Duhem relation. gamma -> 1, Gibbs-Duhem for the residual part and permutation invariance are '
-            'numerical and not decided.',
+            'paired with -c*R, a necessary condition of the Gibbs-Duhem relation. The composition handed to the group-contribution formulas in both UNIFAC kernels '
+            'has the form v/v.sum(). gamma -> 1, Gibbs-Duhem for the residual part and permutation invariance are numerical and not decided.',
 }
 
 AC = 'thermosteam/equilibrium/activity_coefficients.py'
